@@ -273,14 +273,14 @@ func (s *session) AddConnStateChangeHandler(handlers ...StateChangeHandler) {
 //     select { case ch <- msg: case <-s.rt.Done(): return }
 //     so a full/stalled channel never blocks the fan-out past connection teardown (J5).
 //
-// Returns immediately if there are no handlers or if the generation is already torn down.
+// Returns immediately if there are no handlers; a generation that is already being torn down only
+// ends the channel-handler deliveries early.
 func (s *session) recvDataMsg(msg *DataMessage) {
-	// Fast-path exit if the generation is already torn down.
-	select {
-	case <-s.rt.Done():
-		return
-	default:
-	}
+	// No early exit when the generation is already tearing down: the message HAS been received (on
+	// SECS-I its final block has already been ACKed on the line, so the peer's send has returned
+	// success), and dropping it here loses a message the peer was told had arrived. Func handlers are
+	// invoked regardless; only the channel handlers below need rt.Done() so that a stalled receiver
+	// cannot block the fan-out past teardown (J5).
 
 	s.mu.RLock()
 	handlers := s.handlers
